@@ -1601,3 +1601,117 @@ def coq_icase(parser, text, code, log):
         fams.append('(%s, (%s, %s, %s))' % (label(lb), rule_term[r], opt(l), opt(rt)))
     toks = [tm(t[0]) for t in lexed]
     return '(%s, %d, %s, %d, %s)' % (L(rules), nt('start'), L(['%d' % t for t in toks]), code, L(fams))
+
+
+# ----------------------------------------------------------------------------------------------
+# round 8: the add_family log of the dynamic lexers against Forest/ExplicitDynBuild (oracle tables for the regex engine)
+# ----------------------------------------------------------------------------------------------
+IMPORTS_D = ('From LV Require Import Cfg.Grammar Earley.Spec Earley.Alg Earley.AlgCheck Earley.Dyn Earley.DynCheck '
+             'Forest.ExplicitBuild Forest.ExplicitAlgBuild Forest.ExplicitDynBuild Forest.ExplicitDynCheck.')
+
+
+def parse_logged_dyn(parser, text):
+    """as parse_logged for lexer dynamic / dynamic_complete: token nodes are labelled by (terminal, start_pos, end_pos);
+    outcome 0 accept, 1 UnexpectedEOF, 2+i UnexpectedCharacters raised by scan(i)"""
+    from lark.parsers import earley_forest, earley
+    from lark.exceptions import UnexpectedCharacters, UnexpectedEOF
+    log = []
+    calls = [0]
+    orig_add = earley_forest.SymbolNode.add_family
+    orig_pc = earley.Parser.predict_and_complete
+
+    def label(n):
+        if n.is_intermediate:
+            return ('I', n.s[0], n.s[1], n.start, n.end)
+        return ('S', str(n.s.name), n.start, n.end)
+
+    def add_family(self, lr0, rule, start, left, right):
+        lf = label(left) if left is not None else None
+        if right is None:
+            rt = None
+        elif isinstance(right, earley_forest.TokenNode):
+            tk = right.token
+            rt = ('T', str(tk.type), str(tk.type), tk.start_pos, tk.end_pos)
+        else:
+            rt = label(right)
+        log.append((label(self), rule, lf, rt))
+        return orig_add(self, lr0, rule, start, left, right)
+
+    def pc(self, i, *a, **kw):
+        calls[0] += 1
+        return orig_pc(self, i, *a, **kw)
+    earley_forest.SymbolNode.add_family = add_family
+    earley.Parser.predict_and_complete = pc
+    try:
+        try:
+            with_timeout(lambda: parser.parse(text))
+            code = 0
+        except UnexpectedEOF:
+            code = 1
+        except UnexpectedCharacters:
+            code = 2 + calls[0] - 1
+    finally:
+        earley_forest.SymbolNode.add_family = orig_add
+        earley.Parser.predict_and_complete = orig_pc
+    return code, log
+
+
+def coq_idcase(parser, lexer, text, code, log):
+    """Coq term of one idcase.  The regex engine's answers are computed here by direct calls of the parser's own
+    term_matcher: match(t, text, i) for every terminal and position, and match(t, s[:-j]) for every proper truncation of
+    that match (what complete_lex may ask)."""
+    from lark.grammar import Terminal
+    if len(text) >= 60:
+        return None
+    nts, tms = {}, {}
+
+    def nt(name):
+        return nts.setdefault(str(name), len(nts))
+
+    def tm(name):
+        return tms.setdefault(str(name), len(tms))
+
+    def sym(s):
+        return '(T %d)' % tm(s.name) if s.is_term else '(NT %d)' % nt(s.name)
+    nt('start')
+    rule_term, rules = {}, []
+    for r in parser.rules:
+        body = L([sym(x) for x in r.expansion])
+        rule_term[r] = '(mkRule %d %s)' % (nt(r.origin.name), body)
+        rules.append('(%d, %s)' % (nt(r.origin.name), body))
+    ign = [tm(name) for name in parser.ignore_tokens]
+    matcher = parser.parser.parser.term_matcher
+    mt, tt = [], []
+    for name, t in list(tms.items()):
+        term = Terminal(name)
+        for i in range(len(text)):
+            m = matcher(term, text, i)
+            if m is None:
+                continue
+            mt.append((t * 64 + i) * 64 + m.end())
+            sm = m.group(0)
+            for j in range(1, len(sm)):
+                m2 = matcher(term, sm[:-j])
+                if m2 is not None:
+                    tt.append(((t * 64 + i) * 64 + (i + len(sm) - j)) * 64 + i + m2.end())
+
+    def label(lb):
+        if lb[0] == 'I':
+            return '(NInter nat %s %d %d %d)' % (rule_term[lb[1]], lb[2], lb[3], lb[4])
+        if lb[0] == 'S':
+            return '(NSym nat %d %d %d)' % (nt(lb[1]), lb[2], lb[3])
+        return '(NTok nat %d %d %d %d)' % (tm(lb[1]), tm(lb[2]), lb[3], lb[4])
+
+    def opt(lb):
+        return 'None' if lb is None else '(Some %s)' % label(lb)
+    seen, fams = set(), []
+    for lb, r, l, rt in log:
+        k = (lb, r, l, rt)
+        if k in seen:
+            continue
+        seen.add(k)
+        fams.append('(%s, (%s, %s, %s))' % (label(lb), rule_term[r], opt(l), opt(rt)))
+    nl = lambda xs: '(' + L(['%d' % x for x in sorted(xs)]) + ')%N'
+    return '(%s, %d, %s, %d, %s, %s, %s, %d, %s)' % (
+        L(rules), nt('start'), L(['%d' % x for x in ign]), len(text), B(lexer == 'dynamic_complete'),
+        nl(mt), nl(tt), code, L(fams))
